@@ -25,6 +25,11 @@
 // argument shapes, throw points, how the stage ended) is replayed by lean/Driver/C10.lean
 // on the IR semantics of Model/Busy.lean over the translated Gen/Api.lean; the model
 // predicts each setter's outcome and the final in-use flag.
+// Sizes: for every setter call made (inside callbacks: refused or accepted; after calls: accepted) the line
+//   szset <name> <busy> <rows_.size() after> <14 member lengths + netLimits_.back() before> <argument shapes>
+// is answered by the driver with the outcome and the 15 numbers after the call, computed by the size semantics
+// (Model/BusySizes.lean) over Gen/ApiSizes.lean; the direct oracle checks after every setter call and after every
+// placement call (nested or not, returned or thrown) that every per-cell getter returns nbCells() entries.
 #include <cstdio>
 
 #include "common/circuit.hpp"
@@ -52,6 +57,35 @@ std::string snap(const Circuit &c) {
 }
 
 std::string placementOf(const Circuit &c) { return vc::solutionString(c); }
+
+// sizes of the member vectors in the order of Model/BusySizes.lean `reported`, then netLimits_.back()
+std::string sizesOf(const Circuit &c) {
+  std::ostringstream os;
+  os << c.cellWidth_.size() << " " << c.cellHeight_.size() << " " << c.cellIsFixed_.size() << " " << c.cellIsObstruction_.size() << " "
+     << c.cellRowPolarity_.size() << " " << c.cellX_.size() << " " << c.cellY_.size() << " " << c.cellOrientation_.size() << " "
+     << c.netLimits_.size() << " " << c.netWeights_.size() << " " << c.pinCells_.size() << " " << c.pinXOffsets_.size() << " "
+     << c.pinYOffsets_.size() << " " << c.rows_.size() << " " << (c.netLimits_.empty() ? 0 : c.netLimits_.back());
+  return os.str();
+}
+
+// direct oracle of "internally consistent" at the level of the public getters: every per-cell getter returns a
+// vector of nbCells() entries.  "" when it holds, else the first getter that does not.
+std::string perCellGetterMismatch(const Circuit &c) {
+  size_t n = (size_t)c.nbCells();
+  if (c.cellWidth().size() != n) return "cellWidth";
+  if (c.cellHeight().size() != n) return "cellHeight";
+  if (c.cellX().size() != n) return "cellX";
+  if (c.cellY().size() != n) return "cellY";
+  if (c.cellIsFixed().size() != n) return "cellIsFixed";
+  if (c.cellIsObstruction().size() != n) return "cellIsObstruction";
+  if (c.cellRowPolarity().size() != n) return "cellRowPolarity";
+  if (c.cellOrientation().size() != n) return "cellOrientation";
+  return "";
+}
+
+// size correspondence (`szset` lines): collected per instance, written after the traces so that the Lean driver
+// answers them outside any recorded call
+std::vector<std::pair<std::string, std::string>> g_szLines;
 
 // ---------------------------------------------------------------- setter ops
 // argument shapes of a setter call, in the order of the C++ parameters:
@@ -130,6 +164,11 @@ struct Sink {  // lines produced by one (forked) instance
   void fail(const std::string &caseId, const std::string &what) { os << "F " << caseId << "\t" << what << "\n"; }
   void count(const std::string &k, long long n = 1) { os << "C " << k << " " << n << "\n"; }
   void eval() { os << "E\n"; }
+  void sizes(const std::string &caseId, const Circuit &c, const std::string &where) {
+    std::string m = perCellGetterMismatch(c);
+    if (!m.empty()) fail(caseId, "getter " + m + "() does not return nbCells() entries " + where);
+    count("size_oracle_checks");
+  }
 };
 
 // run one setter on the real circuit, log the op and the observed outcome
@@ -137,6 +176,8 @@ struct Sink {  // lines produced by one (forked) instance
 bool runSetter(Sink &s, const std::string &id, Circuit &c, const SetterCall &sc, bool expectThrow, const std::string &where) {
   std::string before = snap(c);
   int nc = c.nbCells(), nn = c.nbNets();
+  std::string szBefore = sizesOf(c);
+  bool busy = c.isInUse_;
   std::string outcome = "ok";
   try {
     sc.run(c);
@@ -146,6 +187,9 @@ bool runSetter(Sink &s, const std::string &id, Circuit &c, const SetterCall &sc,
     outcome = "throw:other";
   }
   bool changed = snap(c) != before;
+  // sizes: the model (Gen/ApiSizes under Model/BusySizes) must predict the outcome and every member length
+  g_szLines.push_back({"szset " + sc.name + " " + (busy ? "1 " : "0 ") + std::to_string(c.rows_.size()) + " " + szBefore + " " + sc.args, "sz " + outcome + " " + sizesOf(c)});
+  s.sizes(id, c, std::string("after setter ") + sc.name + " (" + outcome + ") " + where);
   s.op("set " + sc.name + " " + std::to_string(nc) + " " + std::to_string(nn) + " " + sc.args);
   // the model prints the outcome and, for a throw, the number of members written before it (must be 0)
   s.impl("set " + sc.name + " " + outcome + (outcome == "ok" ? "" : (changed ? " changed" : " w=0")));
@@ -259,6 +303,7 @@ CallResult observedCall(Sink &s, const std::string &id, Circuit &c, int st, cons
   r.inUseAfter = inUse;
   s.impl(std::string("end ") + (r.outcome == "ok" ? "ok" : "throw") + " inuse=" + (inUse ? "1" : "0"));
   s.eval();
+  s.sizes(id, c, std::string("after ") + stageName(st) + ctx + " ended (" + r.outcome + ")");
   if (depth > 0 && !inUse)
     s.fail(id, std::string("a ") + stageName(st) + " call" + ctx + " released the circuit when it " +
                    (r.outcome == "ok" ? "returned" : "threw") + ": the outer call is still in progress but structural setters are accepted");
@@ -657,6 +702,9 @@ void runInstance(Sink &s, uint64_t seed, long long k, const std::string &id) {
     }
   }
   g_bail = false;
+  for (auto &ln : g_szLines) { s.op(ln.first); s.impl(ln.second); s.eval(); }
+  s.count("size_correspondence_lines", (long long)g_szLines.size());
+  g_szLines.clear();
   s.count(std::string("scenario_") + scName);
   s.os << "N " << (hashOverride ? hashOverride : vh::hashStr(snap(base))) << "\n";
 }
@@ -679,7 +727,9 @@ int main(int argc, char **argv) {
              "with their own probing/throwing callback, caught or propagated; every callback calls the 7 structural setters "
              "(must throw, circuit equal), also after a nested call returned or threw, and 3 non-structural ones; after each "
              "call all structural setters, Circuit::check() and a further placement call; after a failed legalization all "
-             "members compared.  non-trivial = instance that executed at least one placement call ending by an exception; "
+             "members compared; after every setter call (accepted or refused) and every placement call (nested or not, "
+             "returned or thrown) every per-cell getter must return nbCells() entries (size_oracle_checks), and the size "
+             "semantics must predict all member lengths (size_correspondence_lines).  non-trivial = instance that executed at least one placement call ending by an exception; "
              "distinct by hash of the circuit";
   long long n = a.thorough() ? 3000 : (a.search() ? 600 : 300);
   std::vector<std::pair<uint64_t, long long>> ks;  // (seed, k)
